@@ -142,6 +142,8 @@ type stWorld struct {
 	redis      *redis.Client
 	redisConns []*simnet.Conn
 	published  []stPublished
+	mnSig      chan<- os.Signal      // main world: the channel main() handed to signal.Notify
+	mnRegChan  chan<- interface{}    // main world: the channel main() created for the ZMQ ingester
 }
 
 func stDefaultOpts() stOpts {
@@ -390,6 +392,13 @@ func (w *stWorld) close() {
 	}
 	w.cancel()
 	close(w.regChan)
+	if w.mnSig != nil {
+		// main world: a main() that is still waiting for signals is told to stop
+		select {
+		case w.mnSig <- syscall.SIGTERM:
+		default:
+		}
+	}
 	w.s.Abort()
 	w.mu.Lock()
 	conns := append([]*stConn(nil), w.conns...)
@@ -745,6 +754,10 @@ func (c *stCaptureConn) SetWriteDeadline(time.Time) error { return nil }
 func (w *stWorld) publish(msg []byte) {
 	hook.Yield("zmq-publish")
 	w.r.Logf("publish registration message (%d bytes)", len(msg))
+	if w.mnRegChan != nil {
+		w.mnRegChan <- msg
+		return
+	}
 	w.regChan <- msg
 }
 
